@@ -18,6 +18,7 @@ import (
 	"strconv"
 	"strings"
 	"testing"
+	"time"
 
 	wio "github.com/whatap/golib/io"
 	"github.com/whatap/golib/lang/value"
@@ -181,6 +182,9 @@ type adapter struct {
 	addAll      func(other *adapter)
 	addAllArray func(es []elem)
 	toArray     func() []elem
+	// holdRaw takes the slice ToArray returns exactly as it is. unchanged reports whether that slice still holds what
+	// it held when it was taken; scribble overwrites every element of it.
+	holdRaw func() (unchanged func() bool, scribble func())
 }
 
 func newList(typ string, capacity int) *adapter {
@@ -201,6 +205,25 @@ func newList(typ string, capacity int) *adapter {
 				arr[i] = int(e.i)
 			}
 			l.AddAllArray(arr)
+		}
+		a.holdRaw = func() (func() bool, func()) {
+			raw := l.ToArray()
+			keep := append([]int(nil), raw...)
+			return func() bool {
+					if len(raw) != len(keep) {
+						return false
+					}
+					for i := range raw {
+						if raw[i] != keep[i] && (raw[i] == raw[i] || keep[i] == keep[i]) {
+							return false
+						}
+					}
+					return true
+				}, func() {
+					for i := range raw {
+						raw[i] = 0x5a5a5a
+					}
+				}
 		}
 		a.toArray = func() []elem {
 			arr := l.ToArray()
@@ -226,6 +249,25 @@ func newList(typ string, capacity int) *adapter {
 			}
 			l.AddAllArray(arr)
 		}
+		a.holdRaw = func() (func() bool, func()) {
+			raw := l.ToArray()
+			keep := append([]int64(nil), raw...)
+			return func() bool {
+					if len(raw) != len(keep) {
+						return false
+					}
+					for i := range raw {
+						if raw[i] != keep[i] && (raw[i] == raw[i] || keep[i] == keep[i]) {
+							return false
+						}
+					}
+					return true
+				}, func() {
+					for i := range raw {
+						raw[i] = 0x5a5a5a5a5a
+					}
+				}
+		}
 		a.toArray = func() []elem {
 			arr := l.ToArray()
 			out := make([]elem, len(arr))
@@ -249,6 +291,25 @@ func newList(typ string, capacity int) *adapter {
 				arr[i] = float32(e.f)
 			}
 			l.AddAllArray(arr)
+		}
+		a.holdRaw = func() (func() bool, func()) {
+			raw := l.ToArray()
+			keep := append([]float32(nil), raw...)
+			return func() bool {
+					if len(raw) != len(keep) {
+						return false
+					}
+					for i := range raw {
+						if raw[i] != keep[i] && (raw[i] == raw[i] || keep[i] == keep[i]) {
+							return false
+						}
+					}
+					return true
+				}, func() {
+					for i := range raw {
+						raw[i] = 12345.5
+					}
+				}
 		}
 		a.toArray = func() []elem {
 			arr := l.ToArray()
@@ -274,6 +335,25 @@ func newList(typ string, capacity int) *adapter {
 			}
 			l.AddAllArray(arr)
 		}
+		a.holdRaw = func() (func() bool, func()) {
+			raw := l.ToArray()
+			keep := append([]float64(nil), raw...)
+			return func() bool {
+					if len(raw) != len(keep) {
+						return false
+					}
+					for i := range raw {
+						if raw[i] != keep[i] && (raw[i] == raw[i] || keep[i] == keep[i]) {
+							return false
+						}
+					}
+					return true
+				}, func() {
+					for i := range raw {
+						raw[i] = 98765.25
+					}
+				}
+		}
 		a.toArray = func() []elem {
 			arr := l.ToArray()
 			out := make([]elem, len(arr))
@@ -297,6 +377,25 @@ func newList(typ string, capacity int) *adapter {
 				arr[i] = e.s
 			}
 			l.AddAllArray(arr)
+		}
+		a.holdRaw = func() (func() bool, func()) {
+			raw := l.ToArray()
+			keep := append([]string(nil), raw...)
+			return func() bool {
+					if len(raw) != len(keep) {
+						return false
+					}
+					for i := range raw {
+						if raw[i] != keep[i] && (raw[i] == raw[i] || keep[i] == keep[i]) {
+							return false
+						}
+					}
+					return true
+				}, func() {
+					for i := range raw {
+						raw[i] = "scribbled"
+					}
+				}
 		}
 		a.toArray = func() []elem {
 			arr := l.ToArray()
@@ -646,7 +745,10 @@ func drawCapacity(t *rapid.T, label string) int {
 	return rapid.IntRange(0, 40).Draw(t, label)
 }
 
-var listKinds = []string{"add", "add", "add", "add", "add", "set", "set", "get", "get", "get", "addall", "addallarray", "toarray", "wire"}
+var listKinds = []string{"add", "add", "add", "add", "add", "set", "set", "get", "get", "get", "addall", "addallarray", "toarray", "wire", "badtext", "toarraykept"}
+
+// texts no numeric list can take
+var badTexts = []string{"x3", "", "12.5x", " 7", "0x10", "1e", "--1", "NaN?"}
 
 func drawListCase(t *rapid.T) ListCase {
 	c := ListCase{T: rapid.SampledFrom(allTypes).Draw(t, "type"), Cap: drawCapacity(t, "cap")}
@@ -693,6 +795,10 @@ func drawListCase(t *rapid.T) ListCase {
 			op.I = drawIndex()
 		case "get":
 			op.I = drawIndex()
+		case "badtext":
+			op.I, op.C = rapid.IntRange(0, 1000).Draw(t, "which"), rapid.IntRange(0, 1).Draw(t, "addorset")
+		case "toarraykept":
+			grow(1)
 		case "addall":
 			op.Es, op.C = drawElems(t, c.T, 12), drawCapacity(t, "ocap")
 			grow(len(op.Es))
@@ -749,6 +855,48 @@ func runListCase(c ListCase) *pbt.Result {
 				if err := sameSeq(c.T, a.toArray(), md); err != nil {
 					return fail("after the rejected Set(%d): list %v", op.I, err)
 				}
+			}
+		case "badtext":
+			// AddString / SetString with a text the element type cannot take: if the call reports it (panics), the list
+			// is exactly what it was
+			if c.T == tString {
+				break
+			}
+			bad := badTexts[(op.I%len(badTexts)+len(badTexts))%len(badTexts)]
+			var p interface{}
+			if op.C%2 == 0 || len(md) == 0 {
+				p = panics(func() { l.AddString(bad) })
+			} else {
+				p = panics(func() { l.SetString(((op.I%len(md))+len(md))%len(md), bad) })
+			}
+			if p != nil {
+				if l.Size() != len(md) {
+					return fail("the text %q was rejected (%v) but Size() went from %d to %d", bad, p, len(md), l.Size())
+				}
+				if err := sameSeq(c.T, a.toArray(), md); err != nil {
+					return fail("after the rejected text %q: list %v", bad, err)
+				}
+			} else {
+				// accepted after all: the model follows what the list itself says it stored
+				md = a.toArray()
+			}
+		case "toarraykept":
+			// the array handed out is the caller's: later changes of the list do not reach it, writing into it does not reach the list
+			unchanged, scribble := a.holdRaw()
+			if len(md) > 0 {
+				e := md[0]
+				ar, _ := flavourArg(c.T, c.T, e)
+				setFlavour(l, c.T, len(md)-1, ar)
+				md[len(md)-1] = e
+				addFlavour(l, c.T, ar)
+				md = append(md, e)
+			}
+			if !unchanged() {
+				return fail("the array obtained from ToArray (list size %d) changed when the list was changed afterwards", len(md)-1)
+			}
+			scribble()
+			if err := sameSeq(c.T, a.toArray(), md); err != nil {
+				return fail("after writing into the array obtained from ToArray earlier: list %v", err)
 			}
 		case "get":
 			if op.I >= 0 && op.I < len(md) {
@@ -865,6 +1013,8 @@ type SortCase struct {
 	// Rot > 0: afterwards the list is overwritten in place (Set, same length) with its own values rotated by Rot
 	// positions and sorted again: the order must be that of the new content
 	Rot int `json:"rot,omitempty"`
+	// SelfChild: additionally a two-level sort whose child list is the list itself
+	SelfChild bool `json:"self_child,omitempty"`
 }
 
 // cmpElem is the oracle's order: integers and floats numerically (no NaN by construction), strings bytewise.
@@ -965,6 +1115,7 @@ func drawSortCase(t *rapid.T) SortCase {
 			c.CVals[i] = calpha[k]
 		}
 	}
+	c.SelfChild = rapid.IntRange(0, 3).Draw(t, "selfchild") == 0
 	if rapid.IntRange(0, 2).Draw(t, "rotate?") == 0 {
 		c.Rot = rapid.IntRange(1, 7).Draw(t, "rot")
 	}
@@ -1046,6 +1197,20 @@ func runSortCase(c SortCase) *pbt.Result {
 			return pbt.Fail("Filtering(sorted indices): %v", err)
 		}
 	}
+	// the list as its own tie-breaker (the same column named twice in a two-level sort)
+	if c.SelfChild {
+		var selfPerm []int
+		returned, p := pbt.WithTimeout(20*time.Second, func() { selfPerm = a.any.SortingAnyList(c.Asc, a.any, c.CAsc) })
+		if !returned {
+			return pbt.Fail("SortingAnyList with the list itself as the child list did not return within 20 s (%d elements)", len(vals))
+		}
+		if p != nil {
+			return pbt.Fail("SortingAnyList with the list itself as the child list panicked: %v", p)
+		}
+		if err := validOrder("SortingAnyList(child = the list itself)", selfPerm, c.T, vals, c.Asc, "", nil, false); err != nil {
+			return &pbt.Result{Err: err}
+		}
+	}
 	if n := len(vals); c.Rot > 0 && n >= 2 {
 		rot := make([]elem, n)
 		for i := range vals {
@@ -1102,7 +1267,7 @@ func runSortCase(c SortCase) *pbt.Result {
 
 var specSorting = pbt.Register(pbt.Spec[SortCase]{
 	Prop: "C13", Name: "sorting", Parallel: 8,
-	Rule:  "lists of 0-300 values (lengths on both sides of sort.Sort's insertion-sort limit) over an alphabet of 1-6 values (extremes, ±0, ±Inf, no NaN, empty string) so duplicates abound; 80% with a child list of any of the five types (numeric children within ±2^53); all four direction combinations; Sorting and SortingAnyList results must be a permutation of 0..n-1 whose consecutive elements are ordered by (primary, then child) in the requested directions; lists unchanged; Filtering(result) is the list in that order; in a third of the cases the list is then overwritten in place (Set, same length) with its values rotated by 1-7 positions and sorted again in both directions and with the child: the orders must be those of the new content; non-trivial = >= 2 equal primary keys; distinct by whole case",
+	Rule:  "lists of 0-300 values (lengths on both sides of sort.Sort's insertion-sort limit) over an alphabet of 1-6 values (extremes, ±0, ±Inf, no NaN, empty string) so duplicates abound; 80% with a child list of any of the five types (numeric children within ±2^53); all four direction combinations; Sorting and SortingAnyList results must be a permutation of 0..n-1 whose consecutive elements are ordered by (primary, then child) in the requested directions; lists unchanged; in a quarter of the cases also a two-level sort with the list itself as child (must return, ordered by the primary); Filtering(result) is the list in that order; in a third of the cases the list is then overwritten in place (Set, same length) with its values rotated by 1-7 positions and sorted again in both directions and with the child: the orders must be those of the new content; non-trivial = >= 2 equal primary keys; distinct by whole case",
 	Quick: 15000, Thorough: 2000000,
 	Draw: drawSortCase, Run: noPanic(runSortCase),
 })
